@@ -277,6 +277,9 @@ func C04(c *core.Ctx) {
 			if r.Intn(8) == 0 {
 				m.id = strings.ToUpper(want)
 			}
+			if r.Intn(6) == 0 {
+				m.id = fmt.Sprintf("TDX_%02d", tee[1]) // decimal rendering: a different identity unless < 10
+			}
 			for j := 0; j < r.Intn(3); j++ {
 				isv := uint32(tee[0])
 				switch r.Intn(3) {
@@ -297,7 +300,7 @@ func C04(c *core.Ctx) {
 		}
 		return mods
 	}
-	bases := []*c04Base{newC04Base(r, 0), newC04Base(r, 1), newC04Base(r, 3)}
+	bases := []*c04Base{newC04Base(r, 0), newC04Base(r, 1), newC04Base(r, 3), newC04Base(r, 0x0a), newC04Base(r, 0x10), newC04Base(r, 0xff)}
 	// the two defects' shapes first, explicitly
 	for _, b := range bases {
 		c04Case(c, r, b, "no-matching-level", []levelShape{{sgxFail: 0, tdxFail: -1, status: "UpToDate"}}, nil, "")
@@ -308,6 +311,13 @@ func C04(c *core.Ctx) {
 				c04Case(c, r, b, "platform-x-module-status", []levelShape{{sgxFail: -1, tdxFail: -1, status: ps}},
 					[]modShape{{want, []modLevel{{uint32(b.fields.TeeTcbSvn[0]), ms}}}}, "")
 			}
+		}
+		if b.fields.TeeTcbSvn[1] >= 10 {
+			dec := fmt.Sprintf("TDX_%02d", b.fields.TeeTcbSvn[1])
+			c04Case(c, r, b, "module-id-decoy", []levelShape{{sgxFail: -1, tdxFail: -1, status: "UpToDate"}},
+				[]modShape{{dec, []modLevel{{0, "UpToDate"}}}}, "")
+			c04Case(c, r, b, "module-id-decoy", []levelShape{{sgxFail: -1, tdxFail: -1, status: "UpToDate"}},
+				[]modShape{{dec, []modLevel{{0, "UpToDate"}}}, {want, []modLevel{{0, "OutOfDate"}}}}, "")
 		}
 		for _, id := range []string{"fmspc", "fmspc-upper", "pceid", "pceid-upper", "mrsigner", "attributes", "mask-short"} {
 			c04Case(c, r, b, "identity", []levelShape{{sgxFail: -1, tdxFail: -1, status: "UpToDate"}},
